@@ -143,6 +143,7 @@ class Unit:
         self.pending = []        # (sig, body tokens, meta) translated after all sigs are known
         self.loop_contracts = {}  # cname -> {n: text}
         self.pre_loop = {}
+        self.stmt_hooks = {}
         self.extra_scope = {}
         self.contracts_header = None
         self.harness_files = []
@@ -412,7 +413,7 @@ class Unit:
                     body = '{ return %s(%s); }' % (nm, args)
             ft = FuncTranslator(self.ctx, sig, tokenize(body), extra_scope=self.extra_scope.get(sig.cname))
             try:
-                ctext = ft.translate(self.loop_contracts.get(sig.cname), self.pre_loop.get(sig.cname))
+                ctext = ft.translate(self.loop_contracts.get(sig.cname), self.pre_loop.get(sig.cname), self.stmt_hooks.get(sig.cname))
             except ExtractError as e:
                 raise ExtractError('%s: %s' % (sig.cname, e))
             self.report['loops'][sig.cname] = ft.loop_no
@@ -436,13 +437,13 @@ class Unit:
         parts.append('/* ---- prototypes of extracted functions ---- */')
         parts.extend(self.proto_text)
         if self.contracts_header:
-            parts.append('#ifndef NO_CONTRACTS')
+            parts.append('#if defined(VERIF_CBMC) && !defined(NO_CONTRACTS)')
             parts.append('#include "%s"' % self.contracts_header)
             parts.append('#endif')
         parts.append('/* ---- extracted function definitions ---- */')
         parts.extend(self.func_text)
         # one mechanical harness per extracted function: every parameter nondeterministic
-        parts.append('#ifndef NO_HARNESS')
+        parts.append('#if defined(VERIF_CBMC) && !defined(NO_HARNESS)')
         for it in self.pending:
             sig = it['sig']
             em = cxx2c.Emitter(self.ctx, {})
@@ -462,7 +463,7 @@ class Unit:
             parts.append('void h_%s(void) { %s %s(%s); }' % (sig.cname, ' '.join(decls), sig.cname, ', '.join(args)))
         parts.append('#endif')
         for h in self.harness_files:
-            parts.append('#ifndef NO_HARNESS')
+            parts.append('#if defined(VERIF_CBMC) && !defined(NO_HARNESS)')
             parts.append('#include "%s"' % h)
             parts.append('#endif')
         cfile = os.path.join(outdir, self.name + '.c')
